@@ -281,6 +281,110 @@ fn large_outputs(ctx: &mut Ctx) -> Vec<Violation> {
     out
 }
 
+/// A history: a three-level value (leaf inside mid inside top) is printed, something inside it
+/// is changed - through the leaf's own name, through a path from mid or from top, through an
+/// alias, or by replacing a part - and it is printed again, several times over.  Every print
+/// must show the value as it is then (the reference semantics is the oracle); a rendering that
+/// remembers anything between prints shows here.
+fn judge_history(t: &mut Tape, tape: &[u8], ctx: &mut Ctx) -> Judged {
+    let leaf_is_array = t.flag();
+    let leaf = if leaf_is_array { E::Array(bx(E::Int(2)), bx(E::Int(1))) } else { E::Object(None, vec![Member::Field("x".into(), E::Int(1)), Member::Field("y".into(), E::Null)]) };
+    // how mid holds leaf: 0 = array element, 1 = field, 2 = parent
+    let mid_kind = t.pick(3);
+    let mid = match mid_kind {
+        0 => E::Array(bx(E::Int(2)), bx(var("leaf"))),
+        1 => E::Object(None, vec![Member::Field("a".into(), var("leaf")), Member::Field("k".into(), E::Int(3))]),
+        _ => E::Object(Some(bx(var("leaf"))), vec![Member::Field("k".into(), E::Int(3))]),
+    };
+    let top_kind = t.pick(3);
+    let top = match top_kind {
+        0 => E::Array(bx(E::Int(2)), bx(var("mid"))),
+        1 => E::Object(None, vec![Member::Field("m".into(), var("mid")), Member::Field("b".into(), E::Bool(true))]),
+        _ => E::Object(Some(bx(var("mid"))), vec![Member::Field("b".into(), E::Bool(true))]),
+    };
+    let mut prog: Prog = vec![let_("leaf", leaf), let_("mid", mid), let_("top", top), let_("other", E::Array(bx(E::Int(1)), bx(E::Int(8)))), let_("alias", var("leaf"))];
+    let show = |p: &mut Prog, k: usize| p.push(print(&format!("{}: ~ | ~ | ~\\n", k), vec![var("top"), var("mid"), var("leaf")]));
+    show(&mut prog, 0);
+    // paths to the leaf that exist for these kinds
+    let mut leaf_paths: Vec<E> = vec![var("leaf"), var("alias")];
+    let mid_to_leaf = |m: E| -> Option<E> {
+        match mid_kind {
+            0 => Some(index(m, E::Int(0))),
+            1 => Some(field(m, "a")),
+            _ => None,
+        }
+    };
+    let mut mid_paths: Vec<E> = vec![var("mid")];
+    match top_kind {
+        0 => mid_paths.push(index(var("top"), E::Int(1))),
+        1 => mid_paths.push(field(var("top"), "m")),
+        _ => {}
+    }
+    for m in mid_paths.clone() {
+        if let Some(p) = mid_to_leaf(m) {
+            leaf_paths.push(p);
+        }
+    }
+    let steps = 2 + t.pick(3);
+    for k in 1..=steps {
+        let val = match t.pick(5) {
+            0 => E::Int(10 + k as i32),
+            1 => E::Null,
+            2 => E::Bool(false),
+            3 => var("other"),
+            _ => E::Int(-(k as i32)),
+        };
+        let stmt = match t.pick(6) {
+            // change the leaf in place through one of its paths
+            0 | 1 | 2 => {
+                let p = leaf_paths[t.pick(leaf_paths.len())].clone();
+                if leaf_is_array {
+                    E::IndexSet(bx(p), bx(E::Int(t.pick(2) as i32)), bx(val))
+                } else {
+                    E::FieldSet(bx(p), ["x", "y"][t.pick(2)].to_string(), bx(val))
+                }
+            }
+            // change mid's own field through one of its paths
+            3 => {
+                let p = mid_paths[t.pick(mid_paths.len())].clone();
+                if mid_kind == 0 {
+                    E::IndexSet(bx(p), bx(E::Int(1)), bx(val))
+                } else {
+                    E::FieldSet(bx(p), "k".into(), bx(val))
+                }
+            }
+            // change top's own part
+            4 => match top_kind {
+                0 => E::IndexSet(bx(var("top")), bx(E::Int(0)), bx(val)),
+                _ => E::FieldSet(bx(var("top")), "b".into(), bx(val)),
+            },
+            // change the array that `other` names (it may have been stored somewhere by now)
+            _ => E::IndexSet(bx(var("other")), bx(E::Int(0)), bx(E::Int(100 + k as i32))),
+        };
+        prog.push(stmt);
+        show(&mut prog, k);
+    }
+    let r = refsem::run(&prog, refsem::DEFAULT_FUEL);
+    if r.outcome != Outcome::Ok {
+        ctx.exclude("history:reference-not-ok");
+        return Ok(());
+    }
+    let src = render::text(&prog, render::Style::Minimal);
+    let case = || json!({"tape": hex(tape), "history": true, "source": render::pretty(&prog)});
+    let pipe = match fmlrun::pipeline(&src) {
+        Ok(p) => p,
+        Err(e) => return ctx.settle(Violation::new("source-rejected", format!("{:?}", e), case())),
+    };
+    let x = fmlrun::run_stepped(&pipe.loaded, 1000 + 400 * r.steps);
+    if !x.exec.is_ok() || x.out != r.out {
+        return ctx.settle(Violation::new("wrong-value-rendering", format!("print / change / print history:\nexpected {:?}\nactual   {:?} {:?}", r.out, x.exec, x.out), case()));
+    }
+    ctx.label("print-change-print-history");
+    ctx.nontrivial(src.as_bytes());
+    ctx.sample(src.len(), || json!({"source": render::pretty(&prog), "expected": r.out}));
+    Ok(())
+}
+
 impl Property for C15 {
     fn id(&self) -> &'static str {
         "C15"
@@ -340,6 +444,9 @@ impl Property for C15 {
     fn judge_tape(&self, tape: &[u8], ctx: &mut Ctx) -> Judged {
         ctx.eval();
         let mut t = Tape::new(tape);
+        if t.chance(80) {
+            return judge_history(&mut t, tape, ctx);
+        }
         let mut uniq = 0;
         let n = 1 + t.pick(3);
         let mut vals = vec![];
